@@ -8,6 +8,7 @@ MODULES = {
     "C04": "props.c04",
     "C05": "props.c05",
     "C06": "props.c06",
+    "C07": "props.c07",
     "C09": "props.c09",
     "C11": "props.c11",
     "C15": "props.c15",
